@@ -1,6 +1,7 @@
 import FCA.Proofs.Galois
 import FCA.Model.Lattice
 import FCA.Proofs.LatticeSpec
+import FCA.Model.Misc
 /-
 C02 — Concept lookup returns the least formal concept containing the query.
 -/
@@ -94,6 +95,63 @@ theorem C02_lookup_index_and_top (K : Ctx) (h : K.WF) :
     ∃ c, (mkLattice K)[(mkLattice K).length - 1]? = some c ∧ c.extent = full K.n := by
   have S := mkLattice_spec h
   exact ⟨fun k c hc => S.index hc, S.get_last⟩
+
+/-- the closure on property sets is monotone and idempotent too -/
+theorem C02_monotone_prop (K : Ctx) (h : K.WF) (B B' : Nat) (hs : B ⊆ᵇ B') : K.doubleProp B ⊆ᵇ K.doubleProp B' :=
+  intentOf_anti (extentOf_anti h hs)
+
+theorem C02_idempotent_prop (K : Ctx) (h : K.WF) (B : Nat) (hB : Bounded K.m B) :
+    K.doubleProp (K.doubleProp B) = K.doubleProp B := by
+  unfold Ctx.doubleProp
+  rw [extent_intent_extent h hB]
+
+/-- `context[items]`: a non-empty collection of object labels takes the object branch and yields `(A'', A')` -/
+theorem C02_getitem_objects (K : Ctx) (objs props items : List Name) (hall : ∀ x ∈ items, x ∈ objs) :
+    ctxGetitem K objs props items = .ok (K.dpObj (ofMembers (items.map fun x => objs.idxOf x))) := by
+  have : items.all objs.contains = true := by
+    rw [List.all_eq_true]; intro x hx; simpa using hall x hx
+  simp [ctxGetitem, labelMask, this]
+
+/-- … a non-empty collection of property labels (names of objects and properties are disjoint) takes the
+property branch and yields `(B', B'')` as `(extent, intent)` -/
+theorem C02_getitem_properties (K : Ctx) (objs props items : List Name) (hdisj : ∀ x, x ∈ objs → x ∉ props)
+    (hne : items ≠ []) (hall : ∀ x ∈ items, x ∈ props) :
+    ctxGetitem K objs props items =
+      .ok (K.extentOf (ofMembers (items.map fun x => props.idxOf x)),
+           K.intentOf (K.extentOf (ofMembers (items.map fun x => props.idxOf x)))) := by
+  have h1 : items.all objs.contains = false := by
+    obtain ⟨x, hx⟩ := List.exists_mem_of_ne_nil items hne
+    rw [Bool.eq_false_iff]
+    intro hc
+    rw [List.all_eq_true] at hc
+    have := hc x hx
+    exact hdisj x (by simpa using this) (hall x hx)
+  have h2 : items.all props.contains = true := by
+    rw [List.all_eq_true]; intro x hx; simpa using hall x hx
+  simp [ctxGetitem, labelMask, h1, h2, Ctx.dpProp]
+
+/-- anything else (an unknown label, or objects and properties mixed) is a `KeyError` -/
+theorem C02_getitem_keyerror (K : Ctx) (objs props items : List Name)
+    (h1 : ∃ x ∈ items, x ∉ objs) (h2 : ∃ x ∈ items, x ∉ props) :
+    ctxGetitem K objs props items = .error .keyError := by
+  have a : items.all objs.contains = false := by
+    rw [Bool.eq_false_iff]; intro hc; rw [List.all_eq_true] at hc
+    obtain ⟨x, hx, hn⟩ := h1; exact hn (by simpa using hc x hx)
+  have b : items.all props.contains = false := by
+    rw [Bool.eq_false_iff]; intro hc; rw [List.all_eq_true] at hc
+    obtain ⟨x, hx, hn⟩ := h2; exact hn (by simpa using hc x hx)
+  simp [ctxGetitem, labelMask, a, b]
+
+/-- `lattice[()]` is the last member (the top), whereas `context[()]` would be the bottom: the empty key
+never reaches the dispatch -/
+theorem C02_lattice_getitem_empty (K : Ctx) (h : K.WF) (objs props : List Name) :
+    latticeGetitem K (mkLattice K) objs props [] = .ok ((mkLattice K).length - 1) := by
+  have S := mkLattice_spec h
+  have : (mkLattice K).isEmpty = false := by
+    cases hL : mkLattice K with
+    | nil => exact absurd hL S.ne_nil
+    | cons _ _ => rfl
+  simp [latticeGetitem, this]
 
 def C02_exK : Ctx := mkCtx 3 3 #[0b011, 0b001, 0b110]
 example : C02_exK.WF := mkCtx_WF 3 3 _ rfl (by intro i hi; interval_cases i <;> decide)
